@@ -34,7 +34,7 @@ class DistFamily(common.Family):
         'spec': spec,
         'workers': rng.choice([1, 2, 2, 3]),
         'shards': rng.choice([1, 2, 3, 4, 5]),
-        'ibs': rng.choice([1, 2, 3, 4]),
+        'ibs': rng.choice([0, 1, 2, 3, 4]),   # 0 = as many as there are
         'prefetch': rng.choice([1, 2, 3, 4]),
         'buffer': rng.choice([0, 1, 2, 4]),
         'cut': rng.randrange(0, nops + 1),
